@@ -15,21 +15,36 @@ KNOWN = os.path.join(HERE, 'known_findings.json')
 EXIT_OK, EXIT_VIOLATION, EXIT_INCONCLUSIVE = 0, 1, 3
 
 
+def run_one(mod, prop, item):
+    """run one instance in this process; exceptions of the real code become verdicts"""
+    from rv.sx2smt import Unsupported, HarnessError, RockitRaised
+    t0 = time.time()
+    try:
+        res = mod.run(item)
+    except RockitRaised as e:
+        loc = str(e).split('|')[0]
+        if item.get('may_raise'):
+            res = {'status': 'ok', 'rejected': str(e), 'stats': {}, 'obligations': 1, 'discharged': 1}
+        else:
+            res = {'status': 'violation', 'violations': [{
+                'property': prop.upper(), 'key': 'raises|%s|%s' % (loc, item['cfg'].method if 'cfg' in item else ''),
+                'label': 'transcription raised', 'detail': 'real code raised on a well-posed specification: %s' % e,
+                'cfg': repr(item.get('cfg')), 'spec': repr(item.get('spec'))}]}
+    except Unsupported as e:
+        res = {'status': 'skipped', 'why': str(e)}
+    except HarnessError as e:
+        res = {'status': 'harness', 'why': str(e)}
+    res.setdefault('status', 'ok')
+    res['wall_s'] = time.time() - t0
+    res['id'] = item['id']
+    return res
+
+
 def _child(prop, item, conn):
     try:
         sys.stdout = open(os.devnull, 'w')
         mod = importlib.import_module('rv.props.' + prop)
-        from rv.sx2smt import Unsupported, HarnessError
-        t0 = time.time()
-        try:
-            res = mod.run(item)
-        except Unsupported as e:
-            res = {'status': 'skipped', 'why': str(e)}
-        except HarnessError as e:
-            res = {'status': 'harness', 'why': str(e)}
-        res.setdefault('status', 'ok')
-        res['wall_s'] = time.time() - t0
-        res['id'] = item['id']
+        res = run_one(mod, prop, item)
     except BaseException as e:   # noqa
         res = {'status': 'error', 'id': item.get('id'), 'why': ''.join(traceback.format_exception(type(e), e, e.__traceback__))[-3000:]}
     try:
